@@ -47,4 +47,12 @@ theorem gen_headerPinned :
     by execution — the harness's `conc` stream — not by a theorem.) -/
 theorem gen_verifierStateless : Creds.verifierHoldsHashState = false := by decide
 
+/-- The passcode machine (`pstep`, `prun`, `passcode_accept`) treats every
+    operation on a role record as one atomic step.  That is the code's
+    behaviour under overlapping requests only if each mutation is ONE
+    `KV.Mutate` (atomic in every backend: C05/C06), not a load followed by a
+    store.  (What overlapping calls actually do is covered by execution — the
+    harness pauses calls inside the store's Get/Set/Mutate — not by a theorem.) -/
+theorem gen_rolesMutateAtomic : Creds.rolesMutateAtomic = true := by decide
+
 end PubModel.C16
